@@ -30,6 +30,150 @@ ESCAPES = {'a': '\a', 'b': '\b', 'f': '\f', 'n': '\n', 'r': '\r', 't': '\t', '0'
 BASES = {'hex_literal': '16', 'oct_literal': '8', 'bin_literal': '2', 'dec_literal': '10'}
 
 
+def _ref_escape(text, i, esc_table):
+    """Reference reader of one escape at text[i] == '\\': (bytes, next index) or 'error'."""
+    hexd = '0123456789abcdefABCDEF'
+    if text.startswith('\\x', i):
+        h = text[i + 2:i + 4]
+        if len(h) == 2 and all(c in hexd or c.isdigit() for c in h):
+            try:
+                return bytes([int(h, 16)]), i + 4
+            except ValueError:
+                return 'error'
+        return 'error'
+    if text.startswith('\\u', i):
+        if text.startswith('\\u{', i):
+            j = text.find('}', i + 3)
+            digits = text[i + 3:j] if j > 0 else ''
+            if j > 0 and digits and all(c in hexd or c.isdigit() for c in digits):
+                try:
+                    n = int(digits, 16)
+                    return chr(n).encode('utf-8'), j + 1
+                except (ValueError, OverflowError, UnicodeEncodeError):
+                    return 'error'
+        return 'error'
+    if i + 1 >= len(text):
+        return 'error'
+    c = text[i + 1]
+    if c not in esc_table:
+        return 'error'
+    try:
+        return esc_table[c].encode('utf-8'), i + 2
+    except UnicodeEncodeError:
+        return 'error'
+
+
+def _ref_string(text, esc_table):
+    """Reference lexing of a string literal at the start of `text`: (bytes, end index), None (not a string) or 'error'."""
+    if not text.startswith('"'):
+        return None
+    out = bytearray()
+    i = 1
+    while i < len(text):
+        c = text[i]
+        if c == '"':
+            return bytes(out), i + 1
+        if c == '\\':
+            r = _ref_escape(text, i, esc_table)
+            if r == 'error':
+                return 'error'
+            out += r[0]
+            i = r[1]
+            continue
+        try:
+            out += c.encode('utf-8')
+        except UnicodeEncodeError:
+            return 'error'
+        i += 1
+    return 'error'
+
+
+def _ref_char(text, esc_table):
+    if not text.startswith("'"):
+        return None
+    if len(text) < 2 or text[1] == "'":
+        return 'error'
+    if text[1] == '\\':
+        r = _ref_escape(text, 1, esc_table)
+        if r == 'error':
+            return 'error'
+        b, i = r
+    else:
+        try:
+            b, i = text[1].encode('utf-8'), 2
+        except UnicodeEncodeError:
+            return 'error'
+    if not text.startswith("'", i) or len(b) != 1:
+        return 'error'
+    return b[0], i + 1
+
+
+def _literal_readers(repo, chk, it, rd):
+    """read_string_token / read_char_token, interpreted on EVERY line of up to N characters over an alphabet that contains
+    both quotes, the backslash, the escape letters and a non-ASCII letter, plus the long escape forms, against an
+    independent reference reader: same token bytes and same end position, or an error in both."""
+    import itertools
+    sc = it.load(SCANNER)
+    SC, Scanner = sc['SourceCode'], sc['Scanner']
+    LexErr = rd['LexerError']
+    alphabet = ['a', '"', "'", '\\', 'x', 'u', '{', '}', '4', 'n', '0', '\u00e9']
+    depth = 4 if chk.tier == 'thorough' else 2
+    bodies = [''.join(t) for n in range(0, depth + 1) for t in itertools.product(alphabet, repeat=n)]
+    long_forms = ['\\x41', '\\xe9', '\\x00', '\\xfF', '\\x4', '\\x4g', '\\u{41}', '\\u{e9}', '\\u{0}', '\\u{d800}', '\\u{dfff}', '\\u{10ffff}',
+                  '\\u{110000}', '\\u{}', '\\u{41', '\\u41', '\\0', '\\n\\r\\t', '\\a\\b\\f', '\\\\', '\\q', 'a\\x41b', 'é\\u{e9}é', '\u20ac', '\\u{20ac}']
+    bodies += long_forms + [x + '"' for x in long_forms] + [x + "'" for x in long_forms] + ['tab\there', ' spaced out ', '//not a comment']
+    for reader_name, quote, ref in (('read_string_token', '"', _ref_string), ('read_char_token', "'", _ref_char)):
+        reader = rd.get(reader_name)
+        if reader is None:
+            raise AnalysisError(f'{reader_name} not found in readers.py')
+        bad = None
+        n = 0
+        for body in bodies:
+            for text in (quote + body, quote + body + quote + ' tail', body):
+                want = ref(text, ESCAPES)
+                scan = Scanner(SC('f', [text]))
+                try:
+                    tok_ = reader(scan)
+                    got = None if tok_ is None else (tok_.data, scan.col)
+                except LexErr:
+                    got = 'error'
+                except Exception as e:      # noqa: BLE001
+                    got = f'{type(e).__name__}: {e}'
+                n += 1
+                if got != want and bad is None:
+                    bad = f'{text!r}: reader gives {got!r}, the reference reading is {want!r}'
+                if want is None and scan.col != 0 and bad is None:
+                    bad = f'{text!r}: not a literal, but the cursor moved to {scan.col}'
+        chk.expect(bad is None, 'C12.R2', reader_name, bad or f'{n} lines agree with the reference reader', READERS)
+        chk.count(f'{reader_name}_lines', n)
+        chk.floor(f'{reader_name} lines', n, 600)
+
+
+def _symbol_reader(repo, chk, it, rd, tok):
+    """read_symbol_token, interpreted on every concatenation of up to two symbol spellings (and every symbol followed by
+    each other symbol's first character): the token returned is the longest symbol that is a prefix of the text."""
+    sc = it.load(SCANNER)
+    SC, Scanner = sc['SourceCode'], sc['Scanner']
+    reader = rd.get('read_symbol_token')
+    syms = list(rd['symbol_tokens'])
+    spell = {str(s_): s_ for s_ in syms}
+    texts = set(spell) | {a + b for a in spell for b in spell} | {a + ' ' + b for a in spell for b in list(spell)[:5]} | {'a', '1', ' +', ''}
+    bad = None
+    for text in sorted(texts):
+        cands = [sp for sp in spell if text.startswith(sp)]
+        want = max(cands, key=len) if cands else None
+        scan = Scanner(SC('f', [text]))
+        try:
+            got = reader(scan)
+        except Exception as e:      # noqa: BLE001
+            bad = bad or f'{text!r}: {type(e).__name__}: {e}'
+            continue
+        ok = (got is None and want is None and scan.col == 0) or (want is not None and got is spell[want] and scan.col == len(want))
+        if not ok and bad is None:
+            bad = f'{text!r}: read {got!r} up to column {scan.col}; the longest symbol at the start is {want!r}'
+    chk.expect(bad is None, 'C12.R3', 'read_symbol_token', bad or f'{len(texts)} texts: longest symbol wins', READERS)
+
+
 def _scanner_tabulation(repo, chk):
     """Scanner / Marker, interpreted exhaustively over small sources (all line lists with up to 3 lines of up to 3
     characters over {a, b}), every cursor position and every short operand, against the specification: the cursor
@@ -242,19 +386,7 @@ def run(repo, chk):
     # ---------------- R2 ---------------------------------------------------------------
     esc = rd.get('escape_codes')
     chk.expect(esc == ESCAPES, 'C12.R2', 'escape_codes', f'{esc!r} differs from the documented table', READERS)
-    reb = repo.find_func(READERS, 'read_escape_bytes')
-    t = src(reb)
-    chk.expect('escaped := read_byte_escape(scan)' in t and 'escaped := read_char_escape(scan)' in t and 'escaped.encode(encoding)' in t
-               and t.index('read_byte_escape') < t.index('read_char_escape'), 'C12.R2', 'read_escape_bytes',
-               'byte escapes first (\\x.. is not a character escape), character escapes encoded with the given encoding', READERS)
-    rs = repo.find_func(READERS, 'read_string_token')
-    t = src(rs)
-    chk.expect("text.encode('utf-8')" in t and "read_escape_bytes(scan, 'utf-8')" in t and 'tokens.StringToken(bytes(result))' in t,
-               'C12.R2', 'read_string_token', 'text runs and escapes are appended as UTF-8 bytes in order', READERS)
-    rch = repo.find_func(READERS, 'read_char_token')
-    t = src(rch)
-    chk.expect('len(byte) != 1' in t and 'tokens.CharToken(byte[0])' in t and "char.encode('utf-8')" in t, 'C12.R2',
-               'read_char_token', 'exactly one UTF-8 byte', READERS)
+    _literal_readers(repo, chk, it, rd)
 
     # ---------------- R3 ----------------------------------------------------------------
     tok = it.load(TOKENS)
@@ -274,10 +406,7 @@ def run(repo, chk):
     chk.expect(not bad, 'C12.R3', 'symbol_tokens order', f'a symbol is tried before a longer symbol it is a prefix of: {bad[:4]} '
                '(e.g. `<=` would lex as `<` `=`)', READERS)
     chk.expect(len(set(spell)) == len(spell), 'C12.R3', 'symbol spellings unique', '', TOKENS)
-    rsym = repo.find_func(READERS, 'read_symbol_token')
-    t = src(rsym)
-    chk.expect('for symbol in symbol_tokens' in t and 'if scan.exact(str(symbol))' in t and 'return symbol' in t, 'C12.R3',
-               'read_symbol_token', 'first matching symbol in the (longest-first) order', READERS)
+    _symbol_reader(repo, chk, it, rd, tok)
     chk.count('enum_tokens', len(enum_tokens))
     chk.floor('enum tokens', len(enum_tokens), 40)
     # spellings of the enum tokens (documented)
